@@ -55,6 +55,10 @@ class Helper:
         """result differs from the all-zero / identity value"""
         return True
 
+    def num_kinds(self, c, n):
+        """'u' / 's' for each of the n numeric result ports of the simulation wrapper"""
+        return ["s" if any(k[0] == "s" for k in self.args(c)) else "u"] * n
+
     def configs(self):
         keys = list(self.params)
         for combo in itertools.product(*[self.params[k] for k in keys]):
@@ -478,6 +482,9 @@ class MinMax(Helper):
     def variant(self, c):
         return f"{c['form']},key={c['key']},{c['t']}"
 
+    def num_kinds(self, c, n):
+        return {"value": [c["t"]], "index": ["u"], "element": ["u", c["t"]]}[self.kind]
+
     def nontrivial(self, c, v, exp):
         return c["n"] > 2 and len(set(v)) > 1
 
@@ -805,21 +812,44 @@ def port_type(kind):
     return f"{VEC[kind[0]]}[{kind[1]}]"
 
 
-def _out_ports(form, prefix="o"):
-    """[(port name, port type, index path)] for an expected normal form"""
+def out_ports(form, prefix="o"):
+    """[(port name, kind, width or None, index path)] for an expected normal form;
+    kind in bv | bit | num"""
     k = form[0]
     if k == "bv":
-        return [(prefix, f"BitVector[{form[1]}]", [])]
+        return [(prefix, "bv", form[1], [])]
     if k == "bit":
-        return [(prefix, "Bit", [])]
+        return [(prefix, "bit", None, [])]
     if k == "num":
-        # width of numeric results is not documented: a generous port, cohdl widens on assignment
-        return [(prefix, "Signed[12]" if form[1] < 0 else "Unsigned[12]", [])]
+        return [(prefix, "num", None, [])]
     out = []
     for i, f in enumerate(form[1]):
-        for n, t, p in _out_ports(f, f"{prefix}_{i}"):
-            out.append((n, t, [i] + p))
+        for n, kk, w, p in out_ports(f, f"{prefix}_{i}"):
+            out.append((n, kk, w, [i] + p))
     return out
+
+
+def sim_shape(name, c):
+    """(result ports [(name, cohdl port type, kind, index path)]) of the simulation wrapper; the shape
+    (number of results, vector widths) is that of the reference result for an admissible valuation"""
+    h = HELPERS[name]
+    kinds = h.args(c)
+    v = [0] * len(kinds)
+    if not h.ok(c, v):
+        v = [1] * len(kinds)
+    ports = out_ports(h.ref(c, v))
+    nk = h.num_kinds(c, sum(1 for p in ports if p[1] == "num"))
+    res = []
+    for n, kk, w, path in ports:
+        if kk == "bv":
+            ty = f"BitVector[{w}]"
+        elif kk == "bit":
+            ty = "Bit"
+        else:
+            # width of numeric results is not documented: a generous port, cohdl widens on assignment
+            ty = "Signed[12]" if nk.pop(0) == "s" else "Unsigned[12]"
+        res.append((n, ty, kk, path))
+    return res
 
 
 def render_module(name, c) -> str:
@@ -847,32 +877,44 @@ def render_module(name, c) -> str:
 
 
 def _sim(h, c):
-    kinds = h.args(c)
-    # the shape of the result (widths) comes from the reference evaluated on all-zero arguments
-    zero = [0] * len(kinds)
-    if not h.ok(c, zero):
-        zero = [1] * len(kinds)
-    signed = any(k[0] == "s" for k in kinds)
-    form = h.ref(c, zero)
-    if signed and form[0] == "num":
-        form = ("num", -1)
-    outs = _out_ports(form)
-    lines = ["class Sim(cohdl.Entity):"]
     if h.name == "crc":
-        lines.append("    clk = Port.input(Bit)")
+        return _sim_crc(h, c)
+    kinds = h.args(c)
+    outs = sim_shape(h.name, c)
+    lines = ["class Sim(cohdl.Entity):"]
     for i, k in enumerate(kinds):
         lines.append(f"    i{i} = Port.input({port_type(k)})")
-    for n, t, _ in outs:
+    for n, t, _, _ in outs:
         lines.append(f"    {n} = Port.output({t})")
     args = "(" + "".join(f"self.i{i}, " for i in range(len(kinds))) + ")"
     lines.append("    def architecture(self):")
-    if h.name == "crc":
-        # one update sequence per clock on a freshly cleared register is not expressible with the
-        # stateful helper; the simulated variant feeds the bits over consecutive clocks instead
-        lines += ["        @std.sequential(std.Clock(self.clk))", "        def logic():"]
-    else:
-        lines += ["        @std.concurrent", "        def logic():"]
+    lines += ["        @std.concurrent", "        def logic():"]
     lines.append(f"            r = call({args})")
-    for n, t, path in outs:
+    for n, t, _, path in outs:
         lines.append(f"            self.{n} <<= r" + "".join(f"[{i}]" for i in path))
+    return "\n".join(lines)
+
+
+def _sim_crc(h, c):
+    """clocked wrapper: `clear` reloads the initial value, otherwise every rising edge feeds the k
+    bits d0..d<k-1> (d0 first) - or, with `last`, only the remaining L % k bits; o = result()"""
+    n, L, k = c["n"], c["L"], c["k"]
+    rem = L % k
+    init = {"default": "", "Null": ", initial_value=Null", "Full": ", initial_value=Full",
+            "val": f", initial_value=BitVector[{n}]('{h._init(c):0{n}b}')"}[c["init"]]
+    inv = ", invert_result=True" if c["inv"] else ""
+    lines = ["class Sim(cohdl.Entity):", "    clk = Port.input(Bit)", "    clear = Port.input(Bit)", "    last = Port.input(Bit)"]
+    lines += [f"    d{i} = Port.input(Bit)" for i in range(k)]
+    lines.append(f"    o = Port.output(BitVector[{n}])")
+    lines.append("    def architecture(self):")
+    lines.append(f"        crc = std.crc.BitwiseCrc(BitVector[{n}]('{h._poly(c):0{n}b}'){init}{inv})")
+    lines += ["        @std.sequential(std.Clock(self.clk))", "        def proc():", "            if self.clear:",
+              "                crc.clear()"]
+    full = "crc.update(self.d0)" if k == 1 else "crc.update_multiple(" + ", ".join(f"self.d{i}" for i in range(k)) + ")"
+    if rem:
+        part = "crc.update(self.d0)" if rem == 1 and k == 1 else \
+            "crc.update_multiple(" + ", ".join(f"self.d{i}" for i in range(rem)) + ")"
+        lines += ["            elif self.last:", f"                {part}"]
+    lines += ["            else:", f"                {full}"]
+    lines += ["        @std.concurrent", "        def outp():", "            self.o <<= crc.result()"]
     return "\n".join(lines)
